@@ -8,6 +8,7 @@ include!("img.rs");
 include!("store_common.rs");
 
 //@ harness: c12_deleted_id_changes_nothing
+//@ serves: C11
 //@ tier: quick
 //@ timeout: 700
 //@ mem: 20
